@@ -270,8 +270,39 @@ func ruleR21(c *Ctx, prop string) {
 		bad := ""
 		badSite := ""
 		nStores := 0
+		// methods whose receiver may be the operator itself (not a local copy made by the caller)
+		shared := map[*ssa.Function]bool{}
+		for _, r := range roots {
+			if r != nil {
+				shared[r] = true
+			}
+		}
+		for changed := true; changed; {
+			changed = false
+			for f := range reach {
+				if !shared[f] || len(f.Params) == 0 {
+					continue
+				}
+				for _, b := range f.Blocks {
+					for _, in := range b.Instrs {
+						cl, ok := in.(*ssa.Call)
+						if !ok {
+							continue
+						}
+						g := cl.Common().StaticCallee()
+						if g == nil || recvNamed(g) != oi.named || shared[g] || len(cl.Common().Args) == 0 {
+							continue
+						}
+						if cl.Common().Args[0] == ssa.Value(f.Params[0]) {
+							shared[g] = true
+							changed = true
+						}
+					}
+				}
+			}
+		}
 		for f := range reach {
-			if recvNamed(f) != oi.named {
+			if recvNamed(f) != oi.named || !shared[f] {
 				continue
 			}
 			if len(f.Params) == 0 {
@@ -321,7 +352,7 @@ func ruleR21(c *Ctx, prop string) {
 		}
 		// values that alias an attribute field and are written through (axes := r.axes; axes[i] = ...)
 		if bad == "" {
-			if w, site := c.aliasWriteOfAttr(oi, initFields, reach); w != "" {
+			if w, site := c.aliasWriteOfAttr(oi, initFields, shared); w != "" {
 				bad, badSite = w, site
 			}
 		}
